@@ -34,6 +34,8 @@ package peer
 //@   requires [bitfield] typeis_[protocol.Bitfield](m) ==> len(as_[protocol.Bitfield](m).Bitfield) == (NP(peer)+7)/8
 //@   requires [request]  typeis_[protocol.Request](m) ==> int(as_[protocol.Request](m).Index) < NP(peer) && as_[protocol.Request](m).Begin%16384 == 0 && as_[protocol.Request](m).Length > 0 && as_[protocol.Request](m).Length <= 16384 &&
 //@            int64(as_[protocol.Request](m).Index)*int64(peer.Pieces.PieceSize()) + int64(as_[protocol.Request](m).Begin) + int64(as_[protocol.Request](m).Length) <= peer.Pieces.Length()
+//@   requires [cancel]   typeis_[protocol.Cancel](m) ==> int(as_[protocol.Cancel](m).Index) < NP(peer) && as_[protocol.Cancel](m).Begin%16384 == 0 && as_[protocol.Cancel](m).Length > 0 && as_[protocol.Cancel](m).Length <= 16384 &&
+//@            int64(as_[protocol.Cancel](m).Index)*int64(peer.Pieces.PieceSize()) + int64(as_[protocol.Cancel](m).Begin) + int64(as_[protocol.Cancel](m).Length) <= peer.Pieces.Length()
 //@   requires [have]     typeis_[protocol.Have](m) ==> int(as_[protocol.Have](m).Index) < NP(peer)
 //@   requires [ext0]     typeis_[protocol.Extended0](m) && peer.proxy != "" ==> as_[protocol.Extended0](m).Version == "" && as_[protocol.Extended0](m).Port == 0
 //@   requires [port]     typeis_[protocol.Port](m) ==> peer.proxy == ""
@@ -79,6 +81,26 @@ package peer
 //@   ensures  [full] int64(chunk)*16384 + 16384 <= peer.Pieces.Length() ==> $r0 == 16384
 //@   ensures  [last] int64(chunk)*16384 < peer.Pieces.Length() && int64(chunk)*16384 + 16384 > peer.Pieces.Length() ==> int64($r0) == peer.Pieces.Length() - int64(chunk)*16384
 //@   props    C11 C09
+
+// writeEvent: a bitmap handed to the torrent goroutine in an event is the
+// event's own -- never the slice the peer goroutine goes on updating (the two
+// goroutines would otherwise count a later Have / DontHave twice or not at all:
+// availability, C09). The body is entered at every call (inline); only the
+// precondition is checked.
+//@ func writeEvent
+//@   inline
+//@   requires peer != nil
+//@   modifies *
+//@   requires [ownbits] typeis_[TorPeerBitmap](m) ==> as_[TorPeerBitmap](m).Bitmap == nil || peer.bitmap == nil || ref_(as_[TorPeerBitmap](m).Bitmap) != ref_(peer.bitmap)
+//@   props    C09 C05
+
+// docancel: a Cancel names its block exactly as the Request did -- same piece,
+// same offset, same length (the SHORT length for the last block of the torrent):
+// a Cancel with another length matches no outstanding request at the remote end.
+//@ func docancel
+//@   requires peer != nil && PG(peer) && int64(chunk)*16384 < peer.Pieces.Length()
+//@   modifies peer.writeTime
+//@   props    C11
 
 // NC: number of 16 KiB blocks of the torrent.
 //@ spec NC(peer *Peer) int
@@ -216,10 +238,11 @@ package peer
 //@   splitreturn
 //@   focus    [C16] pre:peer.scheduleUpload.reqok, pre:peer.unchoke.reqok
 //@   focus    [C18] assert:noping
+//@   focus    [C09] pre:peer.writeEvent
 //@   waive    pre:maybeRequest.below :: that every queued block number stays below the block count across requests.del is not carried by del's contract (it would need 'every remaining element is an old element'); it matters for the conformance of later Requests (C11), not for safety
 //@   waive    pre:maybeRequest.rbits :: in the Piece arm, after Pieces.AddData: AddData's contract frames the whole byte heap (heap:A:uint8), which also holds the request queue's membership bitmap, so its bits are lost to the proof there (AddData writes only piece buffers and piece bitmaps: not expressed)
 //@   waive    panic :: the default arm panics on a message type that protocol.Read cannot produce (C04: Read returns one of its own message types or an error, never nil)
-//@   props    C18 C16 C05
+//@   props    C18 C16 C05 C09
 
 // ---- Upload and choking discipline (C16) ----
 //@ func reject
